@@ -286,8 +286,10 @@ fn gen_blind(thorough: bool, rng: &mut Rng) -> Result<(), String> {
     }
     // population statistics: the prescribed top bit is reached
     for (size, (mx, cnt)) in maxbits.iter() {
-        if *size < 100000 && *cnt >= 30 && *mx + 10 < *size {
-            global_oracles.push(json!({"name":"top_bit_reached","ok":false,"detail":format!("{} draws of bn_rand({}) never exceeded {} bits", cnt, size, mx)}));
+        // max of n uniform draws below 2^size stays below 2^(size-d) with probability 2^-(n*d): alarm at 2^-40 and less
+        let (sz, what) = if *size < 100000 { (*size, "draws of bn_rand") } else { (*size - 100000, "blinders recovered from responses, prescribed size") };
+        if *mx < sz && (sz - *mx) * *cnt >= 40 {
+            global_oracles.push(json!({"name":"top_bit_reached","ok":false,"detail":format!("{} {}({}) never exceeded {} bits (probability 2^-{} for uniform draws)", cnt, what, sz, mx, (sz - *mx) * *cnt)}));
         }
     }
     emit(&json!({"id": "blind/population", "op": "blind_oracles", "in": {}, "impl": {"oracles": global_oracles,
